@@ -594,6 +594,8 @@ impl Fleet {
 
         for attempt in 0..self.options.retry_policy.max_attempts {
             let timeout = node.config.timeout;
+            #[cfg(feature = "verif-hooks")]
+            crate::verif::probe("fleet_before_attempt");
             let call = (|| {
                 let client = ensure_connected(&node)?;
                 if let Some(ref value) = params {
@@ -604,6 +606,16 @@ impl Fleet {
                 }
             })();
 
+            #[cfg(feature = "verif-hooks")]
+            crate::verif::ev(format!(
+                "\"ev\":\"fleet_attempt\",\"n\":{},\"max\":{},\"res\":{:?}",
+                attempt + 1,
+                self.options.retry_policy.max_attempts,
+                match &call {
+                    Ok(_) => "ok".to_string(),
+                    Err(e) => format!("{e:?}"),
+                }
+            ));
             match call {
                 Ok(value) => {
                     return RemoteResult {
@@ -647,11 +659,23 @@ impl Fleet {
 
         for attempt in 0..self.options.retry_policy.max_attempts {
             let timeout = node.config.timeout;
+            #[cfg(feature = "verif-hooks")]
+            crate::verif::probe("fleet_before_attempt");
             let call = (|| {
                 let client = ensure_connected(&node)?;
                 client.call_message_with_timeout(&method, timeout)
             })();
 
+            #[cfg(feature = "verif-hooks")]
+            crate::verif::ev(format!(
+                "\"ev\":\"fleet_attempt\",\"n\":{},\"max\":{},\"res\":{:?}",
+                attempt + 1,
+                self.options.retry_policy.max_attempts,
+                match &call {
+                    Ok(_) => "ok".to_string(),
+                    Err(e) => format!("{e:?}"),
+                }
+            ));
             match call {
                 Ok(value) => {
                     return RemoteResult {
